@@ -264,6 +264,32 @@ Proof.
     + simpl. rewrite H. simpl. assumption.
 Qed.
 
+(* Registrations interleaved with saves: whatever was registered so far (any history [ops] of decorator calls, valid or not),
+   a save of an object whose class has the MRO [mro] uses the first class of the MRO that has an entry, with the newest
+   version n stored for it at that moment and the function stored for n.  This is the reference against which the real
+   _dispatch (and any memo inside it) is compared by the `registration` stream. *)
+Theorem save_uses_newest_at_every_moment : forall (ops : list op) (mro : list Z) t x v,
+  let d := final ops in
+  save_lookup d mro = Some (t, RPair x v) ->
+  exists pre post vs, mro = pre ++ t :: post /\ (forall t', In t' pre -> lookup t' d = None)
+    /\ lookup t d = Some vs /\ v = Z.of_nat (List.length vs) /\ stored d t v = Some x
+    /\ (forall v' x', stored d t v' = Some x' -> v' <= v).
+Proof.
+  intros ops mro t x v d. assert (W : wf d) by (apply run_wf, wf_nil).
+  induction mro as [|t0 mro IH]; simpl; intros H; [discriminate|].
+  destruct (lookup t0 d) as [vs|] eqn:E.
+  - inversion H as [[Ht Hn]]. subst t0.
+    assert (NE : vs <> []) by (intros C; subst vs; simpl in Hn; discriminate).
+    destruct (newest_wfv vs (W t vs E) NE) as [x0 [Hx Hn']]. rewrite Hn' in Hn. inversion Hn; subst x0 v.
+    exists [], mro, vs. split; [reflexivity|]. split; [intros t' []|]. split; [assumption|]. split; [reflexivity|].
+    split; [unfold stored; now rewrite E|].
+    intros v' x' S. unfold stored in S. rewrite E in S. apply vget_In in S. rewrite (W t vs E) in S.
+    apply zseq_In in S. lia.
+  - destruct (IH H) as [pre [post [vs [M [P R]]]]].
+    exists (t0 :: pre), post, vs. split; [simpl; now rewrite M|]. split; [|assumption].
+    intros t' [Ht'|Ht']; [now subst | now apply P].
+Qed.
+
 (* ================================================================= 2. table theorems *)
 
 Fixpoint zlist_eqb (a b : list Z) : bool :=
